@@ -9,6 +9,7 @@ import (
         "github.com/m7913d/go-ntlm/ntlm"
 	"fmt"
 	"log"
+	"sync"
         "time"
 )
 
@@ -78,11 +79,16 @@ func (h *NTLMAuth) removeContext (session string) {
 }
 
 type ntlmContext struct {
+	// messages of one session can arrive at the same time
+	mu sync.Mutex
         session ntlm.ServerSession
 	h *NTLMAuth
 }
 
 func (c *ntlmContext) Authenticate(authorisationEncoded string, r *auth.NtlmResponse) (err error) {
+	c.mu.Lock()
+	defer c.mu.Unlock()
+
 	// the NTLM library is not hardened against every malformed message (e.g. an authenticate
 	// message without session key field): a panic in there must not take the service down
 	defer func() {
@@ -149,6 +155,11 @@ func (c *ntlmContext) authenticate(am *ntlm.AuthenticateMessage, r *auth.NtlmRes
         if c.session == nil {
 		return errors.New(fmt.Sprintf("NTLM Authenticate requires active session: first call negotioate"))
         }
+
+	// a challenge serves one authenticate message: another message that got hold of
+	// this context meanwhile must not be verified with what this one leaves in the session
+	session := c.session
+	c.session = nil
         
         username := am.UserName.String()
         password := c.h.Database.GetPassword (username)
@@ -157,9 +168,9 @@ func (c *ntlmContext) authenticate(am *ntlm.AuthenticateMessage, r *auth.NtlmRes
 		return nil
         }
         
-        c.session.SetUserInfo(username,password,"")
+        session.SetUserInfo(username,password,"")
 
-        err := c.session.ProcessAuthenticateMessage(am)
+        err := session.ProcessAuthenticateMessage(am)
         if err != nil {
 		log.Printf("Failed to process NTLM authenticate message: %s", err)
 		return nil
